@@ -51,7 +51,7 @@ out.append("Seven rounds were run; each round's authors were shown the summaries
            "behaviour that is wrong only under a documented non-default option or table entry, lifetime (reset / cached / closed at the wrong moment). "
            "Round 6: the authors split each statement and its quantifier into clauses and aimed the subtlest edit they could find at the clauses the earlier 444 changes covered least. "
            "Round 7: minimal single-point mutations (one token or one line: comparison operators, and/or, off-by-one, constants, swapped arguments, similarly named attributes, deleted statements), three per property.\n")
-out.append("| Round | Changes kept | First run: caught with replay | caught, no input | missed | Caught with a concrete replay after strengthening | Not yet |\n|---|---|---|---|---|---|---|")
+out.append("| Round | Changes kept | First run: caught with replay | caught, no input | missed | Caught with a concrete replay after strengthening | Not caught (judged outside the property as stated; see the seed's meta.json) |\n|---|---|---|---|---|---|---|")
 for k in sorted(_rounds):
     r = _rounds[k]
     out.append("| %d | %d | %d | %d | %d | %d | %s |" % (k, r["n"], r["CAUGHT"], r["CAUGHT-NO-INPUT"], r["MISSED"], r["after"], ", ".join(r["open"]) or "—"))
